@@ -347,6 +347,50 @@ Definition ex_fail {A} (c : eclass) (rpath : list pseg) : em (xres A) :=
 
 Definition ex_typename_s : str := td_typename.
 
+(* the field loop of execute_selection_set: `for (&response_key, fields) in &grouped_field_set`, with the
+   executor of one field as a parameter *)
+Fixpoint ex_fields_loop (run_field : str -> fielddef -> rsel -> list rsel -> em (xres (option json)))
+                        (s : schema) (otn : str) (gs : egroups) (acc : jmap) : em (xres jmap) :=
+  match gs with
+  | [] => eret (XrOk acc)
+  | (key, (f0, rest)) :: gs' =>
+      match td_type_field s otn (rs_name f0) with
+      | None => ex_fields_loop run_field s otn gs' acc
+      | Some fdef =>
+          ebind (run_field key fdef f0 rest)
+            (fun r =>
+               match r with
+               | XrOk (Some v) => ex_fields_loop run_field s otn gs' (jmap_insert key v acc)
+               | XrOk None => ex_fields_loop run_field s otn gs' acc
+               | XrNull => eret XrNull
+               | XrFuel => eret XrFuel
+               end)
+      end
+  end.
+
+(* the item loop of complete_list_value: `while let Some((index, inner_result)) = stream.next().await`, with the
+   completion of one item as a parameter *)
+Fixpoint ex_items_loop (complete_item : N -> resolved -> em (xres (option json)))
+                       (t inner : ty) (rpath : list pseg) (items : list resolved) (idx : N) (acc : list json)
+  : em (xres (option json)) :=
+  ebind enext (fun _ =>
+    match items with
+    | [] => eret (XrOk (Some (JArr (rev acc))))
+    | it :: items' =>
+        match it with
+        | RvErr => ex_fail EcResolver (PsIdx idx :: rpath)
+        | _ =>
+            ebind (complete_item idx it)
+              (fun res =>
+                 match ex_try_nullify inner res with
+                 | XrOk None => ex_items_loop complete_item t inner rpath items' (idx + 1) acc
+                 | XrOk (Some v) => ex_items_loop complete_item t inner rpath items' (idx + 1) (v :: acc)
+                 | XrNull => eret (ex_try_nullify t XrNull)
+                 | XrFuel => eret XrFuel
+                 end)
+        end
+    end).
+
 (* ---------------------------------------------------------------- the executor *)
 Fixpoint ex_selset (fuel : nat) (cx : ectx) (rpath : list pseg) (otn : str) (oimpls : list str) (oid : N)
                    (sels : list rsel) {struct fuel} : em (xres jmap) :=
@@ -356,23 +400,8 @@ Fixpoint ex_selset (fuel : nat) (cx : ectx) (rpath : list pseg) (otn : str) (oim
       match ex_collect (ex_cfuel cx) cx otn oimpls sels [] [] with
       | None => eret XrFuel
       | Some (_, groups) =>
-          (fix loop (gs : egroups) (acc : jmap) : em (xres jmap) :=
-             match gs with
-             | [] => eret (XrOk acc)
-             | (key, (f0, rest)) :: gs' =>
-                 match td_type_field (ex_schema cx) otn (rs_name f0) with
-                 | None => loop gs' acc
-                 | Some fdef =>
-                     ebind (ex_field fuel cx (PsKey key :: rpath) otn oimpls oid fdef f0 rest)
-                       (fun r =>
-                          match r with
-                          | XrOk (Some v) => loop gs' (jmap_insert key v acc)
-                          | XrOk None => loop gs' acc
-                          | XrNull => eret XrNull
-                          | XrFuel => eret XrFuel
-                          end)
-                 end
-             end) groups []
+          ex_fields_loop (fun key fdef f0 rest => ex_field fuel cx (PsKey key :: rpath) otn oimpls oid fdef f0 rest)
+                         (ex_schema cx) otn groups []
       end
   end
 
@@ -452,23 +481,7 @@ with ex_list (fuel : nat) (cx : ectx) (rpath : list pseg) (t : ty) (f0 : rsel) (
       match t with
       | TNamed _ | TNonNullNamed _ => ex_fail EcKind rpath
       | TList inner | TNonNullList inner =>
-          (fix loop (items : list resolved) (idx : N) (acc : list json) : em (xres (option json)) :=
-             ebind enext (fun _ =>
-               match items with
-               | [] => eret (XrOk (Some (JArr (rev acc))))
-               | it :: items' =>
-                   match it with
-                   | RvErr => ex_fail EcResolver (PsIdx idx :: rpath)
-                   | _ =>
-                       ebind (ex_complete fuel cx (PsIdx idx :: rpath) inner it f0 rest)
-                         (fun res =>
-                            match ex_try_nullify inner res with
-                            | XrOk None => loop items' (idx + 1) acc
-                            | XrOk (Some v) => loop items' (idx + 1) (v :: acc)
-                            | XrNull => eret (ex_try_nullify t XrNull)
-                            | XrFuel => eret XrFuel
-                            end)
-                   end
-               end)) items 0 []
+          ex_items_loop (fun idx it => ex_complete fuel cx (PsIdx idx :: rpath) inner it f0 rest)
+                        t inner rpath items 0 []
       end
   end.
